@@ -72,10 +72,12 @@ impl Parser {
 
         let mut parsed_schemas = Vec::with_capacity(self.parsed_schemas.len());
         for name in self.input_order.drain(0..) {
+            // an input whose "type" is an object with a name of its own is registered under that
+            // name, not under the one it was given as
             let parsed = self
                 .parsed_schemas
                 .remove(&name)
-                .expect("One of the input schemas was unexpectedly not parsed");
+                .ok_or_else(|| Details::SchemaResolutionError(name.clone()))?;
             parsed_schemas.push(parsed);
         }
         Ok(parsed_schemas)
